@@ -105,6 +105,31 @@ func enc(kind string, v val) ([]byte, bool) {
 	return nil, false
 }
 
+// encInto appends to a caller-supplied destination, as every encoder's signature allows (b = EncodeX(b, v))
+func encInto(kind string, dst []byte, v val) ([]byte, bool) {
+	switch kind {
+	case "bytes":
+		return codec.EncodeBytes(dst, v.b), true
+	case "uint":
+		return codec.EncodeUint(dst, v.u), true
+	case "uintdesc":
+		return codec.EncodeUintDesc(dst, v.u), true
+	case "uvarint":
+		return codec.EncodeUvarint(dst, v.u), true
+	case "cuvarint":
+		return codec.EncodeComparableUvarint(dst, v.u), true
+	case "int":
+		return codec.EncodeInt(dst, v.i), true
+	case "intdesc":
+		return codec.EncodeIntDesc(dst, v.i), true
+	case "varint":
+		return codec.EncodeVarint(dst, v.i), true
+	case "cvarint":
+		return codec.EncodeComparableVarint(dst, v.i), true
+	}
+	return nil, false
+}
+
 // dec returns (value, rest, err, known-kind)
 func dec(kind string, b []byte) (val, []byte, error, bool) {
 	in := append([]byte{}, b...) // decoders must not be able to corrupt the caller's view
@@ -212,6 +237,37 @@ func exec(line string) string {
 				return "ok"
 			}
 			return "FAIL got " + v2.str() + " " + vx.Hex(r)
+		case w[0] == "apd" && len(w) == 6:
+			// append contract: encoding into a recycled buffer (content = prefix, spare capacity full of stale bytes)
+			// gives prefix ++ encoding-into-nil, decodes back, and leaves the prefix alone
+			v, ok := parseVal(w[1], w[2])
+			pfx, ok2 := vx.UnHex(w[3])
+			dirty, err1 := strconv.ParseUint(w[4], 10, 8)
+			spare, err2 := strconv.Atoi(w[5])
+			if !ok || !ok2 || err1 != nil || err2 != nil || spare < 0 || spare > 4096 {
+				return "bad-op"
+			}
+			want, ok := enc(w[1], v)
+			if !ok {
+				return "bad-op"
+			}
+			buf := make([]byte, len(pfx)+spare)
+			for i := range buf {
+				buf[i] = byte(dirty)
+			}
+			copy(buf, pfx)
+			got, _ := encInto(w[1], buf[:len(pfx)], v)
+			if !bytes.Equal(got, append(append([]byte{}, pfx...), want...)) {
+				return "FAIL append " + vx.Hex(got)
+			}
+			v2, r, err, _ := dec(w[1], got[len(pfx):])
+			if err != nil {
+				return "FAIL err " + errClass(err)
+			}
+			if !v2.eq(v) || len(r) != 0 {
+				return "FAIL got " + v2.str() + " " + vx.Hex(r)
+			}
+			return "ok"
 		case w[0] == "ord" && len(w) == 4:
 			x, ok := parseVal(w[1], w[2])
 			y, ok2 := parseVal(w[1], w[3])
@@ -347,9 +403,22 @@ func randU(r *vx.Rand, bu []uint64) uint64 {
 func main() {
 	run := vx.Start()
 	defer run.Finish()
+	apdN := 0
 	do := func(op string) {
-		run.Count(strings.Join(strings.Fields(op)[:2], ":"))
+		f := strings.Fields(op)
+		run.Count(strings.Join(f[:2], ":"))
 		run.Emit(op, exec(op))
+		// every round-trip case is also run through the append contract: the same value encoded into a recycled
+		// destination buffer (varying content prefix, spare capacity and stale fill byte)
+		if f[0] == "rt" && len(f) == 4 {
+			apdN++
+			pfx := [][]byte{{}, {0x01}, {0xff, 0x00, 0x7f}, {1, 2, 3, 4, 5, 6, 7, 8, 9}}[apdN%4]
+			dirty := []int{0xff, 0x01, 0x00, 0x80, 0xaa}[apdN%5]
+			spare := []int{0, 1, 7, 9, 16, 64, 300}[apdN%7]
+			a := fmt.Sprintf("apd %s %s %s %d %d", f[1], f[2], vx.Hex(pfx), dirty, spare)
+			run.Count("apd:" + f[1])
+			run.Emit(a, exec(a))
+		}
 	}
 	if run.Replay != "" {
 		for _, l := range run.ReplayLines() {
